@@ -125,7 +125,8 @@ def Recv.ingest (r : Recv) (offset len : Nat) (fin : Bool) (received maxData : N
     outer `none` = `self.end - bytes_read` underflow -/
 def Recv.stop (r : Recv) : Option (Option (Nat × Bool × Recv)) :=
   if r.stopped then some none
-  else match subU r.end_ r.assembler.bytesRead with
+  else match (if Gen.stopCreditsOnlyReceiving && !r.isReceiving then some 0
+              else subU r.end_ r.assembler.bytesRead) with
   | none => none
   | some credits =>
     some (some (credits, r.isReceiving, { r with stopped := true, assembler := r.assembler.clear }))
